@@ -62,6 +62,35 @@ def specCompareFn (fs : FloatSem) (cmpF : fs.F → fs.F → Ordering) (op : CmpO
   | none => .err
   | some r => .ok (specOp op r)
 
+/-! ### the answer depends on the two VALUES only
+
+In the interpreter every operand is a reference to a value object (`*SexpInt`, `*SexpFloat`, …),
+and one object can be both operands: a variable used twice, a value passed to two parameters,
+an array element compared with itself. The property speaks about numbers, so identity must be
+irrelevant: NaN is unequal to and unordered against everything, including the very object that
+holds it. The spec at the level of references is therefore DEFINED through the values the two
+references hold, and `compare_is_value_level` says what that means. -/
+
+/-- Comparison of two operands given as references `i`, `j` into a store of value objects. -/
+def specCompareRef (fs : FloatSem) (cmpF : fs.F → fs.F → Ordering) (op : CmpOp)
+    (store : Nat → NumV fs.F) (i j : Nat) : Res Bool :=
+  specCompareFn fs cmpF op (store i) (store j)
+
+/-- **compare_is_value_level**: two operand pairs that hold the same values get the same answer,
+whichever objects hold them — in particular whether or not the two operands are one object. -/
+theorem compare_is_value_level (fs : FloatSem) (cmpF : fs.F → fs.F → Ordering) (op : CmpOp)
+    (store store' : Nat → NumV fs.F) (i j i' j' : Nat)
+    (hi : store i = store' i') (hj : store j = store' j') :
+    specCompareRef fs cmpF op store i j = specCompareRef fs cmpF op store' i' j' := by
+  unfold specCompareRef; rw [hi, hj]
+
+/-- A NaN object compared with ITSELF is still unordered: every operator is false except `!=`. -/
+theorem spec_nan_self_unordered (fs : FloatSem) (cmpF : fs.F → fs.F → Ordering) (op : CmpOp)
+    (store : Nat → NumV fs.F) (i : Nat) (f : fs.F) (hs : store i = .flt f)
+    (hn : fs.isNaN f = true) :
+    specCompareRef fs cmpF op store i i = .ok (op == .ne) := by
+  simp [specCompareRef, specCompareFn, specCmp, specOp, hs, hn]
+
 /-- Integer arithmetic of the spec: compute in ℤ, reduce modulo 2^64. -/
 def specIntArith (op : ArOp) (a b : Int) : Option Int :=
   match op with
